@@ -334,14 +334,18 @@ def load_known(prop):
     return known, fixed
 
 
-def shrink(prop_cfg, session, want, known_flags, budget=60):
-    """ddmin over the op lines of one session; `want` is the verdict class to preserve"""
+def shrink(prop_cfg, session, want, known_flags, budget=60, target_op=None):
+    """ddmin over the op lines of one session; `want` is the verdict class to preserve, on the
+    same operation (first two words) as the line that failed originally"""
+    def opkey(op):
+        return " ".join(op.split(" ")[:2])
     def bad(cand):
         try:
             res = execute(prop_cfg, cand, tag="shrink")
         except Exception:
             return False
-        return any(classify(r, known_flags).split(":")[0] == want for r in res)
+        return any(classify(r, known_flags).split(":")[0] == want and (target_op is None or opkey(r["op"]) == opkey(target_op))
+                   for r in res)
     head = []
     cur = list(session)
     if cur and cur[0].split(" ")[0] == "reset":
